@@ -480,7 +480,7 @@ func runC09(c *Ctx) {
 				foreign = append(foreign, b)
 			}
 		}
-		c.Check("C09.U1", "anchor-times-not-compared-by-the-parser", len(foreign) == 0 && n >= 6, 0, fmt.Sprintf("%d reads of signedData.AnchorFrom / AnchorUntil in the parser package; comparisons outside the default-expiry function: %v", n, foreign))
+		c.Check("C09.U1", "anchor-times-not-compared-by-the-parser", len(foreign) == 0 && n >= 2, 0, fmt.Sprintf("%d reads of signedData.AnchorFrom / AnchorUntil in the parser package; comparisons outside the default-expiry function: %v", n, foreign))
 	}
 	c.Min("C09.U1", 1)
 	c.Assume("no int64 overflow in from + MaxOperationTimeDelta; anchoring times < 2^63; 'missing' bound = 0 as in the JSON model (omitempty)")
